@@ -13,6 +13,7 @@ from pyvc import core, sym
 from pyvc.api import (native, sym_str, sym_bytes, sym_int, sym_bool, prove, assume, note, implies, both, either, neg, ghost)
 from pyvc.interp import LoopSpec
 from pyvc.sym import SStr, mkstr
+from pyvc.core import strval
 from sievelib import managesieve
 from contracts.client import new_client
 
@@ -213,6 +214,17 @@ def summary_read_line_loop(L):
     Error when the stream holds no complete line"""
     c = L.self
     S = c._Client__read_buffer + ghost()["inb"]
+    sp = structural_first_line(S)
+    if sp is not None:
+        # shaped stream: the first CRLF is found on the structure (exact)
+        if sp is False:
+            c._Client__read_buffer = b""
+            ghost()["inb"] = b""
+            raise managesieve.Error("Failed to read data from the server")
+        L.ret = sp[0]
+        c._Client__read_buffer = sp[1]
+        ghost()["inb"] = b""
+        return None
     if CRLF not in S:
         c._Client__read_buffer = b""
         ghost()["inb"] = b""
@@ -222,6 +234,24 @@ def summary_read_line_loop(L):
     c._Client__read_buffer = S[i + 2:]
     ghost()["inb"] = b""
     return None
+
+
+@native
+def structural_first_line(S):
+    """(line, rest) around the first CRLF of a shaped stream; False if it certainly has none; None if undecided"""
+    from pyvc import shape
+    if isinstance(S, bytes):
+        k = S.find(b"\r\n")
+        return False if k < 0 else (S[:k], S[k + 2:])
+    ps = shape.pieces_of(S.t)
+    if ps is None:
+        return None
+    r = shape.split_first(ps, "\r\n")
+    if r is shape.UNKNOWN:
+        return None
+    if r is None:
+        return False
+    return (mkstr(shape.concat(r[0]), True), mkstr(shape.concat(r[1]), True))
 
 
 def k_read_block_summary(ip, args, kwargs):
@@ -238,10 +268,47 @@ def k_read_block_summary(ip, args, kwargs):
         setattr(c, "_Client__read_buffer", b"")
         G["inb"] = b""
         raise managesieve.Error("Failed to read bytes from the server")
-    setattr(c, "_Client__read_buffer", mkstr(z3.SubString(S, n, z3.Length(S) - n), True))
     G["inb"] = b""
     G.setdefault("blocks", []).append(size)
+    sp = structural_prefix(S, n)
+    if sp is not None:
+        # shaped stream and a count that provably ends at a piece boundary: the block and the rest are those pieces
+        core.prove(z3.And(z3.Length(sp[0]) == n, z3.Concat(sp[0], sp[1]) == S), "R1.structural-block-is-the-first-n-octets")
+        setattr(c, "_Client__read_buffer", mkstr(sp[1], True))
+        return mkstr(sp[0], True)
+    setattr(c, "_Client__read_buffer", mkstr(z3.SubString(S, n, z3.Length(S) - n), True))
     return mkstr(z3.SubString(S, 0, n), True)
+
+
+def structural_prefix(S, n):
+    """(first n octets, rest) of a shaped stream as concatenations of its own pieces, when the path condition entails
+    that n is the length of a prefix of pieces (cut inside a constant piece allowed); None otherwise"""
+    from pyvc import shape
+    p = core.cur()
+    ps = shape.pieces_of(S)
+    if core.TRACE:
+        print("[pyvc] structural_prefix pieces", ps, "n =", str(z3.simplify(n))[:200], flush=True)
+    if ps is None or not any(pc.const is None for pc in ps):
+        return None
+    acc = z3.IntVal(0)
+    for j, pc in enumerate(ps):
+        if pc.const is None:
+            if shape._entails(p, n == acc):
+                return (shape.concat(ps[:j]), shape.concat(ps[j:]))
+            acc = acc + z3.Length(pc.term)
+            continue
+        L = len(pc.const)
+        if not shape._entails(p, z3.Not(z3.And(n >= acc, n < acc + L))):
+            for o in range(L):
+                if shape._entails(p, n == acc + o):
+                    head = ps[:j] + ([shape.Piece(const=pc.const[:o])] if o else [])
+                    tail = [shape.Piece(const=pc.const[o:])] + ps[j + 1:]
+                    return (shape.concat(head), shape.concat(tail))
+            return None
+        acc = acc + L
+    if shape._entails(p, n == acc):
+        return (shape.concat(ps), strval(""))
+    return None
 
 
 def setup_summaries(ip, unit):
